@@ -301,6 +301,11 @@ class Scheduler(object):
     def Lock(self):
         return FakeLock()
 
+    @property
+    def Process(self):
+        import multiprocessing
+        return multiprocessing.Process
+
 
 def run_parallel(ctx, tp, files, ns, nworkers, assignment, arrival):
     from dendropy.application import sumtrees
